@@ -39,7 +39,8 @@ Proof. exact value_retained. Qed.
 
 (** ** the value itself (floating point) *)
 
-(** value() always lies in [0, 1] (after any history, pressing or not) *)
+(** value() always lies in [0, 1] (after any sample history, pressing or not; for a configuration satisfying
+    config_ok -- shown for the property's whole quantifier in C16_config_ok_of_quantifier -- and finite samples) *)
 Theorem C16_value_range : forall cap fs sp dr pu samples,
   let r0 := ribbon_new cap fs sp dr pu in
   config_ok r0 -> Forall sample_ok samples ->
@@ -169,7 +170,10 @@ Theorem C16_independent_of_newest : forall cap fs sp dr pu older new1 new2,
 Proof. exact C16_independent_of_newest. Qed.
 Close Scope R_scope.
 
-(** between, for the f32 value() itself (after the rescale by 1/boundary, capped at 1) *)
+(** between, for the f32 value() itself (after the rescale by 1/boundary, capped at 1), with tolerance
+    2 tau / b, b the rescale boundary: informative for realistic resistor ratios (explicit constant in
+    C16_between_f32_realistic); for a dropper thousands of times the softpot b approaches one ulp and the
+    bound says no more than the range theorem *)
 Open Scope R_scope.
 Theorem C16_between_f32 : forall cap fs sp dr pu samples lo hi,
   let r0 := ribbon_new cap fs sp dr pu in
